@@ -110,10 +110,10 @@ func (m *Manager) wipeoutKey(ctx context.Context, keyName string) error {
 				&kmspb.DestroyCryptoKeyVersionRequest{Name: kver.GetName()})
 			result = multierr.Append(result, err)
 		}
-		if len(resp.GetCryptoKeyVersions()) < keyPageSize {
+		pageToken = resp.GetNextPageToken()
+		if pageToken == "" {
 			break
 		}
-		pageToken = resp.GetNextPageToken()
 	}
 	return result
 }
@@ -132,10 +132,10 @@ func (m *Manager) Wipeout(ctx context.Context) error {
 		for _, key := range resp.GetCryptoKeys() {
 			result = multierr.Append(result, m.wipeoutKey(ctx, key.GetName()))
 		}
-		if len(resp.GetCryptoKeys()) < keyPageSize {
+		pageToken = resp.GetNextPageToken()
+		if pageToken == "" {
 			break
 		}
-		pageToken = resp.GetNextPageToken()
 	}
 	return result
 }
